@@ -180,7 +180,7 @@ class SRTM30:
             List of tile names that contain the elevation data for the ROI.
         """
         lon_min = lon_min % 360
-        if lon_min > 180:
+        if lon_min >= 180:
             lon_min -= 360
 
         lon_max = lon_max % 360
